@@ -77,11 +77,11 @@ PROPS = {
                                       'sub-constructs satisfy the interface contract (structural induction)'],
                 explanation='exception classes escaping every _parse/_build/_sizeof under both stream models'),
     'C18': dict(functional=True, generic=True, level='proof', trusted_base=[E5],
-                level_text='For ' + GENERIC_NOTE + ': every ConstructError raised carries path= and that path extends the method\'s path argument; every sub-construct call receives the method\'s path (Renamed: path + " -> name", proved as a postcondition on the escaping error); the stream helpers raise with the path they were given. By induction on nesting the escaping path is the operation tag followed by the names of the enclosing Renamed members in order. An error raised by a raise statement inside an except handler (an error that replaces a member's error) is proved to keep the member's path. The public entry points and the truncation-offset lemma are not yet under contract.',
+                level_text='For ' + GENERIC_NOTE + ': every ConstructError raised carries path= and that path extends the method\'s path argument; every sub-construct call receives the method\'s path (Renamed: path + " -> name", proved as a postcondition on the escaping error); the stream helpers raise with the path they were given. By induction on nesting the escaping path is the operation tag followed by the names of the enclosing Renamed members in order. An error raised by a raise statement inside an except handler (an error that replaces the error of a member) is proved to keep the path of that member. The public entry points and the truncation-offset lemma are not yet under contract.',
                 level_note='Assumes the interface clause for sub-constructs (errors extend the path they were handed), which is what each class is proved to establish. Known findings: Tunnel._parse and Select._build restart the path by re-entering through the public parse/build.',
                 assumptions=PY_SEM + [E5, 'sub-constructs raise errors whose path extends the path they were given (interface clause, established per class)']),
     'C05': dict(functional=True, generic=True, level='proof', trusted_base=[E5],
-                level_text='For every _sizeof body of the core classes: whatever the context expressions do (including raising KeyError/AttributeError for a missing key), only SizeofError escapes and a returned size is an int >= 0, assuming only that of sub-constructs. Exactness of the size against the stream advance of build and parse is proved by the 'sized' ghost program (sizeof answers n => a successful build appends n bytes and a successful parse of them, followed by any tail, advances n) for Padded, Aligned, FixedSized, Prefixed, Const, Flag, Bytes, BytesInteger, BitsInteger, FormatField, IfThenElse (the same branch in sizeof, build and parse) and Default; the _sizeof bodies of Padded, Aligned, FixedSized, Prefixed, IfThenElse and plain delegation are proved against functional contracts.',
+                level_text='For every _sizeof body of the core classes: whatever the context expressions do (including raising KeyError/AttributeError for a missing key), only SizeofError escapes and a returned size is an int >= 0, assuming only that of sub-constructs. Exactness of the size against the stream advance of build and parse is proved by the sized ghost program (sizeof answers n => a successful build appends n bytes and a successful parse of them, followed by any tail, advances n) for Padded, Aligned, FixedSized, Prefixed, Const, Flag, Bytes, BytesInteger, BitsInteger, FormatField, IfThenElse (the same branch in sizeof, build and parse) and Default; the _sizeof bodies of Padded, Aligned, FixedSized, Prefixed, IfThenElse and plain delegation are proved against functional contracts.',
                 level_note='Documented exemptions are preconditions: lengths/counts >= 0, moduli >= 2. Sub-constructs are assumed to satisfy the same clauses (induction).',
                 assumptions=PY_SEM + [E5, 'lengths/counts are non-negative and moduli >= 2 (documented exemption)']),
     'C10': dict(functional=True, generic=False, level='proof', trusted_base=[], assumptions=PY_SEM, claimed=False,
